@@ -136,15 +136,25 @@ def run(tier):
     log("  chain store over the four backends: %d histories, %d backend comparisons, %d mismatches, %.1fs" % (cb["traces"], cb["evaluations"], len(cb["mismatches"]), cb["wall"]))
     # a session far larger than any enumerated sequence (70 000 unflushed writes in one bucket), ended
     # by Cancel / by Flush, on the four backends
-    bk = vlib.go_run(binary, "TestBulk", wd, timeout=900, tag="bulk")
+    try:
+        bk = vlib.go_run(binary, "TestBulk", wd, timeout=900, tag="bulk")
+    except vlib.Infra:
+        if not verdict.violations:
+            raise
+        bk = {"mismatches": [], "wall": 0.0}   # the run already has its verdict
     verdict.add_all(bk["mismatches"])
     log("  bulk sessions (70 000 unflushed writes, cancel / flush) on 4 backends: %d findings, %.1fs" % (len(bk["mismatches"]), bk["wall"]))
     # ... also in what survives a stop of the process: crash/reopen histories of the chain store on
     # MemDB, CacheDB(MemDB) and a Bolt file (harness/chainx TestDriver, durable mode); counted for C17:
     # a backend-owned value changed in place / an uncommitted write visible after the stop / a fault
     # or panic on one backend only.  (The reopen-consistency findings of these histories are C03's.)
-    cd = vlib.go_run(cbin, "TestDriver", wd, env={"VERIF_MODE": "durable", "VERIF_HISTORIES": 24 if tier == "quick" else 240, "VERIF_SHARDS": 1,
-                                                  "VERIF_MIN_BLOCKS": 15, "VERIF_MAX_BLOCKS": 35}, timeout=2400, tag="durable")
+    try:
+        cd = vlib.go_run(cbin, "TestDriver", wd, env={"VERIF_MODE": "durable", "VERIF_HISTORIES": 24 if tier == "quick" else 240, "VERIF_SHARDS": 1,
+                                                      "VERIF_MIN_BLOCKS": 15, "VERIF_MAX_BLOCKS": 35}, timeout=2400, tag="durable")
+    except vlib.Infra:
+        if not verdict.violations:
+            raise
+        cd = {"mismatches": [], "traces": 0, "counts": {}}
     own = [m for m in cd["mismatches"] if re.search(r"uncommitted-visible|panic", m.get("sig", ""))]
     verdict.add_all(own)
     log("  chain store across process stops on 3 backends: %d histories, %d reopens, %d findings of this property" % (cd["traces"], cd.get("counts", {}).get("reopens", 0), len(own)))
